@@ -1176,6 +1176,7 @@ def check_C10(ctx):
                 bad += 1
                 ctx.violation("C10:calls-never-returned", f"{len(out.get('stuck') or [])} of {out.get('goroutines')} goroutines were still inside a call {out.get('after_s')} s after the start ({out.get('calls')} calls had returned): {(out.get('stuck') or [])[:4]}",
                               {"round": r, "summary": out, "replay_cmd": f"acvh_race racestress {ctx.seed * 100 + r} {'16' if ctx.quick() else '24'} {'8' if ctx.quick() else '12'}"})
+                break   # (every further round would wait for the same calls again)
             elif out is None or out.get("outcome") != "ok":
                 bad += 1
                 ctx.violation("C10:stress-failed", f"race stress run did not finish: rc={p.returncode} {p.stderr[-300:]}", {"round": r, "stderr_tail": p.stderr[-1500:]})
